@@ -59,6 +59,7 @@ func revertToManifest(kv *DB, mf *Manifest, idMap map[uint64]struct{}) error {
 			if err := os.Remove(filename); err != nil {
 				return y.Wrapf(err, "While removing table %d", id)
 			}
+			vevent(7, filename, 0, 0) // verif: remove
 		}
 	}
 
@@ -177,6 +178,7 @@ func newLevelsController(db *DB, mf *Manifest) (*levelsController, error) {
 		_ = s.close()
 		return nil, err
 	}
+	vevent(10, db.opt.Dir, 0, 0) // verif: syncdir
 
 	return s, nil
 }
@@ -971,6 +973,7 @@ func (s *levelsController) compactBuildTables(
 		// from not doing this ASAP after all file creation has finished because this is a
 		// background operation.
 		err = s.kv.syncDir(s.kv.opt.Dir)
+		vevent(10, s.kv.opt.Dir, 0, 0) // verif: syncdir
 	}
 
 	if err != nil {
